@@ -16,13 +16,19 @@ import thresha_glue as G  # noqa: E402
 from thresha_glue import Fld, Dealer, thresha, np, show_list, show_matrix, exc_name  # noqa: E402
 import thresha_oracle as orc  # noqa: E402
 import common  # noqa: E402
+import repo_path  # noqa: E402
+import py2lean_thresha  # noqa: E402
 
 LEVEL = 'proof'
-LEAN_MODULES = ['MpycV.Props.C12']
-LEAN_NAMESPACES = ['MpycV.C12']
+LEAN_MODULES = ['MpycV.Props.C12', 'MpycV.PropsGen.C12Src']
+LEAN_NAMESPACES = ['MpycV.C12', 'MpycV.C12Src']
 REQUIRED_THEOREMS = ['recombVec_eq_lagrange', 'recombine_eval', 'recombine_split', 'recombine_split_at',
                      'recombine_split_modP', 'recombine_split_modP_at', 'recombVecE_ok', 'recombVecE_dup',
-                     'randomSplit_poly', 'randomSplit_shape', 'modP_hom']
+                     'randomSplit_poly', 'randomSplit_shape', 'modP_hom',
+                     # source tie (PropsGen/C12Src.lean): definitions generated from the current thresha.py = model
+                     'recombination_vector_src_eq', 'random_split_src_eq', 'recombine_one_src_eq',
+                     'recombine_list_src_eq', 'intModP_hom', 'recombVecE_intModP_ok',
+                     'recombination_vector_src_lagrange', 'split_recombine_src']
 RULE = ('case = (field, t, m, secrets, dealer coefficients, variant list/np, int or field-element inputs) for random_split '
         'and (points = subset of parties in some order, x_rs) for recombine; exhaustive part: GF(5), GF(7), GF(2^2), '
         'GF(3^2), t <= 2, m < |F| (m <= 5, thorough 6), EVERY subset of >= t+1 parties, EVERY x_r of the field, plus the '
@@ -107,6 +113,15 @@ def check_split(ctx, F, secrets, stream, t, m, variant, elt, lines, impl, meta):
     if st != 'ok':
         if n > 0:
             ctx.violation(f'random_split raised {res} on a valid request', dict(rep, expected='shares', observed=res))
+        return None
+    # shares are canonical field values (reduced `% p`): ints in range(p) / polynomials of degree < d
+    try:
+        enc = [[int(v) for v in (row.tolist() if hasattr(row, 'tolist') else row)] for row in raw]
+    except Exception:  # noqa: BLE001
+        enc = None
+    if enc is not None and enc != res:
+        ctx.violation(f'{"np_" if variant == "np" else ""}random_split: a share is not reduced modulo the field modulus',
+                      dict(rep, expected=res, observed=enc))
         return None
     polys = expected_polys(F, secrets, stream, t, variant)
     want = [[orc.poly_eval(F.of, polys[h], F.of.from_int(i + 1)) for h in range(n)] for i in range(m)]
@@ -312,8 +327,81 @@ def run(ctx):
 
 
 # ---------------------------------------------------------------------------------------------
+# source translator tie: current mpyc/thresha.py -> lean/MpycV/Generated/ThreshaSrc.lean
+# ---------------------------------------------------------------------------------------------
+GEN_FILE = os.path.join(common.LEAN_DIR, 'MpycV', 'Generated', 'ThreshaSrc.lean')
+MIRROR_FILE = os.path.join(common.LEAN_DIR, 'MpycV', 'Lemmas', 'ThreshaSrcMirror.lean')
+THRESHA_SRC = os.path.join(repo_path.REPO, 'mpyc', 'thresha.py')
+# translated function -> functions whose behaviour changes with it (callers in the translated source)
+DEPENDENTS = {'recombination_vector': ['recombine_list', 'recombine_one', 'f_S_i', 'pseudorandom_share',
+                                       'pseudorandom_share_zero'],
+              'recombine_list': [], 'recombine_one': ['f_S_i', 'pseudorandom_share', 'pseudorandom_share_zero'],
+              'f_S_i': ['pseudorandom_share', 'pseudorandom_share_zero']}
+
+
+def _translate_current():
+    try:
+        text = open(THRESHA_SRC).read()
+    except OSError as exc:
+        return py2lean_thresha.translate_source('')[0], {'*': f'cannot read {THRESHA_SRC}: {exc}'}
+    return py2lean_thresha.translate_source(text)
+
+
+def generate(ctx):
+    """source translator: current mpyc/thresha.py -> lean/MpycV/Generated/ThreshaSrc.lean (deterministic)"""
+    text, problems = _translate_current()
+    os.makedirs(os.path.dirname(GEN_FILE), exist_ok=True)
+    old = open(GEN_FILE).read() if os.path.exists(GEN_FILE) else None
+    if old != text:
+        tmp = GEN_FILE + f'.tmp{os.getpid()}'
+        with open(tmp, 'w') as f:
+            f.write(text)
+        os.replace(tmp, GEN_FILE)
+    for fn, msg in problems.items():
+        ctx.note(f'py2lean_thresha: {fn} not translated: {msg}')
+    changed = changed_functions(text)
+    if changed:
+        ctx.note('py2lean_thresha: translated text differs from the pinned mirror for: ' + ', '.join(changed))
+    ctx.count('py2lean_thresha/functions translated',
+              len(py2lean_thresha.ORDER) - len([k for k in problems if k != '*']))
+
+
+def _blocks(text):
+    out, cur = {}, None
+    for ln in text.split('\n'):
+        if ln.startswith('-- ≙ thresha.py:'):
+            cur = None           # the line number may move without any change of the function
+            continue
+        if ln.startswith('def ') and ' ' in ln[4:]:
+            cur = ln[4:].split()[0].split('.')[0]
+            out[cur] = []
+        if ln.startswith('end MpycV.'):
+            cur = None
+        if cur is not None:
+            out[cur].append(ln)
+    return {k: '\n'.join(v).strip() for k, v in out.items()}
+
+
+def changed_functions(text=None):
+    """translated functions whose Lean text differs from the mirror the bridge lemmas are proved for"""
+    if text is None:
+        text = _translate_current()[0]
+    try:
+        mirror = _blocks(open(MIRROR_FILE).read())
+    except OSError:
+        return list(py2lean_thresha.ORDER)
+    cur = _blocks(text)
+    return [fn for fn in py2lean_thresha.ORDER if cur.get(fn) != mirror.get(fn)]
+
+
 def search(ctx):
-    """oracle-only random search on the real code (bigger budget)"""
+    """oracle-only random search on the real code (bigger budget); when the source tie broke, the sweep concentrates on
+    the functions whose translation changed and on their callers"""
+    mine = {'recombination_vector', 'recombine_list', 'recombine_one', 'random_split'}
+    focus = sorted(set(changed_functions()) & mine)
+    if focus:
+        ctx.note('source tie: translation differs from the mirror for ' + ', '.join(focus) +
+                 ' -> oracle sweep on random_split / recombine (list, np, all fields)')
     rng = ctx.subrng('search')
     fields = small_fields() + [Fld(G.P64), Fld(2, 8), Fld(3, 5), Fld(11), Fld(2, 4)]
     for _ in range(ctx.scale(3000, 20000)):
@@ -338,6 +426,9 @@ def search(ctx):
 
 def replay(ctx, data):
     """re-execute one replay dict on the real code"""
+    if data.get('kind') in ('prss', 'fsi'):          # found by the C15 oracle sweep of the focused search
+        from props import c15
+        return c15.replay(ctx, data)
     F = Fld.from_desc(data['field'])
     if data.get('kind') == 'split':
         before = len(ctx.violations)
